@@ -58,22 +58,26 @@ CLAIMED = {
         'automorphisms lists exactly the successful base images. The interface contract is proved for all four concrete representations. '
         'fold (real body; Partition<usize> through the contract proved in unit partitions): Some(p) is a degree-respecting congruence above p0 identifying d and e, '
         'None implies that NO such congruence exists; is_minimal is true exactly when no chamber can be merged with chamber 1 by any degree-respecting congruence, '
-        'which for a symbol connected from chamber 1 is: the identity is the only degree-respecting congruence.',
+        'which for a symbol connected from chamber 1 is: the identity is the only degree-respecting congruence. minimal_image (real body): the result is a well-formed '
+        'complete symbol onto which the input maps by a chamber map that commutes with every operation and whose fibres are the classes of a degree-respecting '
+        'congruence, for a connected symbol the COARSEST one (every degree-respecting congruence refines it: the join of two such congruences is constructed and '
+        'proved to be one), i.e. the image is the smallest quotient of that kind.',
    note='Trusted: Verus+Z3, vstd. Requires img0 != 0 (0 is the code\'s unassigned marker); fold/is_minimal require a complete symbol and chambers in range; termination. '
-        'Not decided by contracts (bounded stand-in only): totality/bijectivity of the morphism map (needs connectivity = Traversal), minimal_image (iterated fold + quotient '
-        'construction), covers vs minimal images.',
+        'Not decided by contracts (bounded stand-in only): totality/bijectivity of the morphism map (needs connectivity = Traversal), the degrees of the minimal image '
+        '(build_sym_using_ms is under an operations-only contract), covers vs minimal images. Iterator::fold in minimal_image by its std semantics; as_partial_dsym assumed.',
    ref='5 C04', technique=TECH),
  'C11': dict(
    text='Unbounded proof (Verus/Z3) over the real bodies of CosetTable::{new, len, canon, get, set, join, merge, compact}, scan, scan_inverse, scan_both_ways, '
         'scan_and_connect, expanded_relator_set, coset_table and coset_representative: for ANY presentation and subgroup generators, the table coset_table returns is '
-        'complete (every generator and inverse generator defined at every row), every relator traced from every row ends in that row and every subgroup generator traced '
-        'from row 0 ends in row 0 (completeness from an invariant of the enumeration, closure from the final consistency pass, both carried through the renumbering of '
-        'compact); for every complete table in which inverse generators undo generators, every '
+        'complete (every generator and inverse generator defined at every row), the action of the inverse generator undoes the generator, every relator traced from every '
+        'row ends in that row and every subgroup generator traced from row 0 ends in row 0 (completeness and inverse-consistency from invariants of the enumeration and of '
+        'the coincidence procedure, closure from the final consistency pass, all carried through the renumbering of compact), so that the result meets the precondition '
+        'of coset_representative; for every complete table in which inverse generators undo generators, every '
         '(row, word) coset_representative returns traces from row 0 to that row; get/set/join are specified against the abstract action with whole-table frames; the scans '
         'trace exactly the prefix they report.',
    note='Trusted: Verus+Z3, vstd, VecDeque/BTreeMap::from specs; all_gens and five std collection expressions in coset_table (BTreeSet new/extend/iteration, iter().chain(), '
         'Vec::extend(Option)) by their std semantics; the row-limit assert as an abort; FreeWord and IntPartition by the contracts proved in units free_words / partitions '
-        '(run as dependencies). NOT decided by contracts (bounded stand-in): inverse generators undo generators, transitivity, row count = index; termination.',
+        '(run as dependencies). NOT decided by contracts (bounded stand-in): transitivity, row count = index; termination.',
    ref='5 C11', technique=TECH),
  'C05': dict(
    text='Unbounded proof (Verus/Z3) over the real bodies of build_set, build_sym_using_ms, orbit_reps_2d, cover and oriented_cover: for every complete base '
